@@ -94,11 +94,12 @@ fn fill_cats(grammar: &Grammar, text: &str, nodes: &mut [Node]) {
 
 #[derive(Clone, Debug)]
 enum Plug {
-    Numeric { normalize: bool },
+    /// `spelled` = the settings contain the key enableNormalize; without it the plugin must behave as with `true`
+    Numeric { normalize: bool, spelled: bool },
     Katakana { min_length: usize, pos: usize },
 }
 
-const OOV_POS: [[&str; 6]; 5] = [
+const OOV_POS: [[&str; 6]; 7] = [
     ["ÂêçË©û", "ÊôÆÈÄöÂêçË©û", "‰∏ÄËà¨", "*", "*", "*"],
     ["ÂêçË©û", "Âõ∫ÊúâÂêçË©û", "Âú∞Âêç", "‰∏ÄËà¨", "*", "*"],
     ["Ë£úÂä©Ë®òÂè∑", "‰∏ÄËà¨", "*", "*", "*", "*"],
@@ -106,12 +107,23 @@ const OOV_POS: [[&str; 6]; 5] = [
     // (only the `upos-` variants below configure such a provider)
     ["ÂêçË©û", "ÊôÆÈÄöÂêçË©û", "Êú™Áü•Ë™û", "*", "*", "*"],
     ["ÊÑüÂãïË©û", "„Éï„Ç£„É©„Éº", "„Ç´„Çø„Ç´„Éä", "*", "*", "*"],
+    // parts of speech with a `*` IN FRONT OF a specified level (conjugating words), whose family (same leading levels) has
+    // several members in the grammar's table, the prescribed one NOT the first: ÂãïË©û,ÈùûËá™Á´ãÂèØËÉΩ,*,*,‰∫îÊÆµ-„Ç´Ë°å has ÁµÇÊ≠¢ÂΩ¢-‰∏ÄËà¨
+    // (Ë°å„Åè, row 8 of lex.csv) before ÈÄ£Áî®ÂΩ¢-‰øÉÈü≥‰æø (Ë°å„Å£); Âä©ÂãïË©û,*,*,*,Âä©ÂãïË©û-„Çø has ÁµÇÊ≠¢ÂΩ¢-‰∏ÄËà¨ („Åü, row 1) before the ÈÄ£‰ΩìÂΩ¢-‰∏ÄËà¨
+    // of FAMILY_ROWS.  The merged token must carry exactly these six components.
+    ["ÂãïË©û", "ÈùûËá™Á´ãÂèØËÉΩ", "*", "*", "‰∫îÊÆµ-„Ç´Ë°å", "ÈÄ£Áî®ÂΩ¢-‰øÉÈü≥‰æø"],
+    ["Âä©ÂãïË©û", "*", "*", "*", "Âä©ÂãïË©û-„Çø", "ÈÄ£‰ΩìÂΩ¢-‰∏ÄËà¨"],
 ];
+/// appended after every other row of both lexicons (word ids that other rows refer to stay valid)
+const FAMILY_ROWS: &str = "\
+„Å†„Å£,1,1,9000,„Å†„Å£,Âä©ÂãïË©û,*,*,*,Âä©ÂãïË©û-„Çø,ÈÄ£‰ΩìÂΩ¢-‰∏ÄËà¨,„ÉÄ„ÉÉ,„Å†,*,A,*,*,*,*
+";
 const NUM_POS: [&str; 6] = ["ÂêçË©û", "Êï∞Ë©û", "*", "*", "*", "*"];
 
 fn plug_json(p: &Plug) -> Value {
     match p {
-        Plug::Numeric { normalize } => json!({"class": "com.worksap.nlp.sudachi.JoinNumericPlugin", "enableNormalize": normalize}),
+        Plug::Numeric { normalize, spelled: true } => json!({"class": "com.worksap.nlp.sudachi.JoinNumericPlugin", "enableNormalize": normalize}),
+        Plug::Numeric { spelled: false, .. } => json!({"class": "com.worksap.nlp.sudachi.JoinNumericPlugin"}),
         Plug::Katakana { min_length, pos } => json!({"class": "com.worksap.nlp.sudachi.JoinKatakanaOovPlugin", "oovPOS": OOV_POS[*pos], "minLength": min_length}),
     }
 }
@@ -126,8 +138,13 @@ struct Variant {
     input_plugin: bool,
 }
 
+/// id of a part of speech by EXACT comparison of all six components with the grammar's table (independent of
+/// Grammar::get_part_of_speech_id, the lookup the plugins' set_up uses)
+fn exact_pos_id(d: &JapaneseDictionary, p: &[&str]) -> Option<u16> {
+    d.grammar().pos_list.iter().position(|q| q.len() == p.len() && q.iter().zip(p.iter()).all(|(a, b)| a == b)).map(|i| i as u16)
+}
 fn pos_id(d: &JapaneseDictionary, p: &[&str]) -> u16 {
-    d.grammar().get_part_of_speech_id(p).expect("part of speech exists in the dictionary")
+    exact_pos_id(d, p).expect("part of speech exists in the dictionary")
 }
 
 fn coq_node(n: &Node) -> String {
@@ -136,7 +153,7 @@ fn coq_node(n: &Node) -> String {
 
 fn coq_plug(v: &Variant, p: &Plug) -> String {
     match p {
-        Plug::Numeric { normalize } => format!("PNumeric {} {}", cbool(*normalize), cn(v.num_pos)),
+        Plug::Numeric { normalize, .. } => format!("PNumeric {} {}", cbool(*normalize), cn(v.num_pos)),
         Plug::Katakana { min_length, pos } => format!("PKatakana {} {}", min_length, cn(v.oov_pos[*pos])),
     }
 }
@@ -147,7 +164,7 @@ fn grouping_oracle(v: &Variant, text: &str, inp: &[Node], out: &[Node]) -> Optio
     if joined != text {
         return Some(format!("surfaces with plugins concatenate to {:?}, not to the input", joined));
     }
-    let renorm = v.plugs.iter().any(|p| matches!(p, Plug::Numeric { normalize: true }));
+    let renorm = v.plugs.iter().any(|p| matches!(p, Plug::Numeric { normalize: true, .. }));
     let mut allowed: Vec<u16> = vec![];
     for p in &v.plugs {
         match p {
@@ -438,6 +455,7 @@ fn compile_alt() -> Vec<u8> {
     out.push_str(ALT_ROWS);
     out.push_str(&attr_rows(46, 47, 52, 53));
     out.push_str(HEADWORD_ROWS);
+    out.push_str(FAMILY_ROWS);
     let conn = crate::c15::read_repo("sudachi/tests/resources/matrix_10x10.def");
     let mut b = DictBuilder::new_system();
     b.read_conn(&conn[..]).expect("matrix");
@@ -476,7 +494,7 @@ const HEADWORD_ROWS: &str = "\
 ";
 
 fn variants(work: &std::path::Path) -> Vec<Variant> {
-    let mut vs = variants_of(work, "", &compile_system(&format!("{}{}{}", EXTRA_ROWS, attr_rows(46, 47, 55, 56), HEADWORD_ROWS)), true);
+    let mut vs = variants_of(work, "", &compile_system(&format!("{}{}{}{}", EXTRA_ROWS, attr_rows(46, 47, 55, 56), HEADWORD_ROWS, FAMILY_ROWS)), true);
     vs.extend(variants_of(work, "alt-", &compile_alt(), false));
     vs
 }
@@ -484,18 +502,24 @@ fn variants(work: &std::path::Path) -> Vec<Variant> {
 fn variants_of(work: &std::path::Path, prefix: &str, dic: &[u8], all_chains: bool) -> Vec<Variant> {
     let dic = dic.to_vec();
     let chains: Vec<(&str, Vec<Plug>)> = vec![
-        ("num+kat3", vec![Plug::Numeric { normalize: true }, Plug::Katakana { min_length: 3, pos: 0 }]),
-        ("numraw+kat1", vec![Plug::Numeric { normalize: false }, Plug::Katakana { min_length: 1, pos: 0 }]),
+        ("num+kat3", vec![Plug::Numeric { normalize: true, spelled: true }, Plug::Katakana { min_length: 3, pos: 0 }]),
+        ("numraw+kat1", vec![Plug::Numeric { normalize: false, spelled: true }, Plug::Katakana { min_length: 1, pos: 0 }]),
         ("kat2", vec![Plug::Katakana { min_length: 2, pos: 1 }]),
-        ("num", vec![Plug::Numeric { normalize: true }]),
-        ("kat5+num", vec![Plug::Katakana { min_length: 5, pos: 0 }, Plug::Numeric { normalize: true }]),
-        ("num+kat0", vec![Plug::Numeric { normalize: true }, Plug::Katakana { min_length: 0, pos: 2 }]),
-        ("numraw", vec![Plug::Numeric { normalize: false }]),
+        ("num", vec![Plug::Numeric { normalize: true, spelled: true }]),
+        ("kat5+num", vec![Plug::Katakana { min_length: 5, pos: 0 }, Plug::Numeric { normalize: true, spelled: true }]),
+        ("num+kat0", vec![Plug::Numeric { normalize: true, spelled: true }, Plug::Katakana { min_length: 0, pos: 2 }]),
+        ("numraw", vec![Plug::Numeric { normalize: false, spelled: true }]),
         ("kat9", vec![Plug::Katakana { min_length: 9, pos: 0 }]),
         // oovPOS differs from the part of speech of the katakana dictionary words: a run joined only because of minLength
         // („Ç¢„Ç§ next to „Ç¢„Ç§„Ç¶: no unknown word in it) must still carry the configured oovPOS
+        // the key enableNormalize ABSENT from the settings: the documented default is normalisation on
+        ("numdef", vec![Plug::Numeric { normalize: true, spelled: false }]),
+        ("numdef+kat3", vec![Plug::Numeric { normalize: true, spelled: false }, Plug::Katakana { min_length: 3, pos: 0 }]),
         ("kat3p1", vec![Plug::Katakana { min_length: 3, pos: 1 }]),
-        ("num+kat4p2", vec![Plug::Numeric { normalize: true }, Plug::Katakana { min_length: 4, pos: 2 }]),
+        // oovPOS with `*` before a specified level, not the first member of its family
+        ("kat3v", vec![Plug::Katakana { min_length: 3, pos: 5 }]),
+        ("num+kat2j", vec![Plug::Numeric { normalize: true, spelled: true }, Plug::Katakana { min_length: 2, pos: 6 }]),
+        ("num+kat4p2", vec![Plug::Numeric { normalize: true, spelled: true }, Plug::Katakana { min_length: 4, pos: 2 }]),
     ];
     let mut vs = vec![];
     for (cd_name, cd) in [("res", "resources/char.def"), ("test", "sudachi/tests/resources/char.def")] {
@@ -515,7 +539,7 @@ fn variants_of(work: &std::path::Path, prefix: &str, dic: &[u8], all_chains: boo
                     (load_dict_plain(&dic, &res, json!([])), load_dict_plain(&dic, &res, pr))
                 };
                 let num_pos = pos_id(&base, &NUM_POS);
-                let oov_pos = OOV_POS.iter().map(|p| base.grammar().get_part_of_speech_id(p).unwrap_or(u16::MAX)).collect();
+                let oov_pos = OOV_POS.iter().map(|p| exact_pos_id(&base, p).unwrap_or(u16::MAX)).collect();
                 vs.push(Variant { name: format!("{}{}/{}{}", prefix, cd_name, name, if input_plugin { "/nfkc" } else { "" }), plugs: plugs.clone(), base, with, num_pos, oov_pos, input_plugin });
             }
         }
@@ -563,11 +587,11 @@ fn user_pos_variants(sink: &mut Sink, work: &std::path::Path, dic: &[u8]) -> Vec
     let mecab = json!({"class": "com.worksap.nlp.sudachi.MeCabOovPlugin", "charDef": "char.def", "unkDef": "unk.def", "userPOS": "allow"});
     let stacks: Vec<(&str, Value, Vec<Plug>)> = vec![
         ("simple/kat3u", json!([simple(3, true)]), vec![Plug::Katakana { min_length: 3, pos: 3 }]),
-        ("simple/num+kat2u", json!([simple(3, true)]), vec![Plug::Numeric { normalize: true }, Plug::Katakana { min_length: 2, pos: 3 }]),
+        ("simple/num+kat2u", json!([simple(3, true)]), vec![Plug::Numeric { normalize: true, spelled: true }, Plug::Katakana { min_length: 2, pos: 3 }]),
         ("regex+simple/kat3f", json!([regex, simple(0, false)]), vec![Plug::Katakana { min_length: 3, pos: 4 }]),
-        ("regex+simple/kat1f+num", json!([regex, simple(3, true)]), vec![Plug::Katakana { min_length: 1, pos: 4 }, Plug::Numeric { normalize: false }]),
+        ("regex+simple/kat1f+num", json!([regex, simple(3, true)]), vec![Plug::Katakana { min_length: 1, pos: 4 }, Plug::Numeric { normalize: false, spelled: true }]),
         ("mecab+simple/kat4u", json!([mecab, simple(0, false)]), vec![Plug::Katakana { min_length: 4, pos: 3 }]),
-        ("mecab+simple/num+kat3u", json!([mecab, simple(3, true)]), vec![Plug::Numeric { normalize: true }, Plug::Katakana { min_length: 3, pos: 3 }]),
+        ("mecab+simple/num+kat3u", json!([mecab, simple(3, true)]), vec![Plug::Numeric { normalize: true, spelled: false }, Plug::Katakana { min_length: 3, pos: 3 }]),
     ];
     let mut vs = vec![];
     for (name, oov, plugs) in stacks {
@@ -587,12 +611,12 @@ fn user_pos_variants(sink: &mut Sink, work: &std::path::Path, dic: &[u8]) -> Vec
         match try_load(dic, &res, &oov, pr.clone()) {
             Ok(with) => {
                 let num_pos = pos_id(&base, &NUM_POS);
-                let oov_pos: Vec<u16> = OOV_POS.iter().map(|p| base.grammar().get_part_of_speech_id(p).unwrap_or(u16::MAX)).collect();
+                let oov_pos: Vec<u16> = OOV_POS.iter().map(|p| exact_pos_id(&base, p).unwrap_or(u16::MAX)).collect();
                 let id = sink.case_rust_only(d, true);
                 // the ids the plugins resolved are those of the analysis without them
                 for p in &plugs {
                     if let Plug::Katakana { pos, .. } = p {
-                        if oov_pos[*pos] == u16::MAX || with.grammar().get_part_of_speech_id(&OOV_POS[*pos]) != Some(oov_pos[*pos]) {
+                        if oov_pos[*pos] == u16::MAX || exact_pos_id(&with, &OOV_POS[*pos]) != Some(oov_pos[*pos]) {
                             sink.fail(id, &format!("configuration {}: the user-defined part of speech {:?} has no / another id with the path-rewrite plugins", name, OOV_POS[*pos]), "");
                         }
                     }
@@ -751,10 +775,10 @@ const DIRECTED_HEADWORD: [&str; 12] = ["Êù±‰∫¨„Å´18", "8", "Ôºò", "ÔºòÔºó", "88Â
 pub fn run(args: &Args) {
     let mut sink = Sink::new("C14", &args.out, &["Model.Rewrite"], args.seed, &args.tier);
     sink.shard_size = 60;
-    sink.rule("the same text analysed with one dictionary (tests/resources/lex.csv + numeral units, separators, katakana words; resources/char.def or tests/resources/char.def) without path-rewrite plugins and with a plugin chain; a second lexicon makes 4 / Âõõ / 9 / ÂÑÑ common nouns, leaves ',' and '.' out (OOV separators inside numeral runs) and gives katakana words other parts of speech; every morpheme's reported surface()/begin()/end() must be the covered text, a merged one the union / concatenation of its parts, with the part of speech and OOV flag of the plugin that can have made the merge (JoinNumeric enableNormalize true/false, JoinKatakanaOov minLength 0/1/2/3/4/5/9, three OOV parts of speech of the lexicon incl. ones that differ from the part of speech of the katakana dictionary words (runs joined only because of minLength), both orders, each alone; `upos-` configurations whose oovPOS is a USER-DEFINED part of speech that only an OOV provider with userPOS=allow introduces (Simple / Regex / MeCab through unk.def): they must load with the path-rewrite plugins whenever they load without, and merged tokens carry that part of speech); texts are concatenations of katakana dictionary words / katakana OOV pieces (incl. NOOOVBOW „Ç°) / digits, kanji digits, units, separators, well-formed and malformed numerals / other words, the empty text, every piece alone and between blanks (paths of 0 / 1 / 2 tokens), pairs of pieces; directed sequences first (separators at text edges, numerals next to katakana runs); Coq model of both loops run on the plugin-free path must equal the result with plugins and grouping_ok must hold on it; a Rust oracle re-checks boundary subset, union range, concatenated surface, prescribed part of speech, unchanged rest; non-trivial = at least one merge; extra stream with the NFKC input-text plugin (oracle only); numeral-class words whose headword does not have the byte length of their key (full-width / kanji / ASCII headword for a key written otherwise) in both lexicons, directed and as pieces; every case additionally with the word-info fields restricted (StatefulTokenizer::set_subset: POS_ID; POS_ID|NORMALIZED_FORM; +READING_FORM; POS_ID|SPLIT_A|SPLIT_B - none loads the surface): with plugins the analysis succeeds whenever it succeeds without, covers the text, boundaries are a subset");
+    sink.rule("the same text analysed with one dictionary (tests/resources/lex.csv + numeral units, separators, katakana words; resources/char.def or tests/resources/char.def) without path-rewrite plugins and with a plugin chain; a second lexicon makes 4 / Âõõ / 9 / ÂÑÑ common nouns, leaves ',' and '.' out (OOV separators inside numeral runs) and gives katakana words other parts of speech; every morpheme's reported surface()/begin()/end() must be the covered text, a merged one the union / concatenation of its parts, with the part of speech and OOV flag of the plugin that can have made the merge (JoinNumeric enableNormalize true / false / key absent (= true), JoinKatakanaOov minLength 0/1/2/3/4/5/9, five OOV parts of speech of the lexicon incl. two with `*` in front of a specified level whose family has an earlier member in the grammar's table (ids by exact six-component comparison, not by Grammar::get_part_of_speech_id), and ones that differ from the part of speech of the katakana dictionary words (runs joined only because of minLength), both orders, each alone; `upos-` configurations whose oovPOS is a USER-DEFINED part of speech that only an OOV provider with userPOS=allow introduces (Simple / Regex / MeCab through unk.def): they must load with the path-rewrite plugins whenever they load without, and merged tokens carry that part of speech); texts are concatenations of katakana dictionary words / katakana OOV pieces (incl. NOOOVBOW „Ç°) / digits, kanji digits, units, separators, well-formed and malformed numerals / other words, the empty text, every piece alone and between blanks (paths of 0 / 1 / 2 tokens), pairs of pieces; directed sequences first (separators at text edges, numerals next to katakana runs); Coq model of both loops run on the plugin-free path must equal the result with plugins and grouping_ok must hold on it; a Rust oracle re-checks boundary subset, union range, concatenated surface, prescribed part of speech, unchanged rest; non-trivial = at least one merge; extra stream with the NFKC input-text plugin (oracle only); numeral-class words whose headword does not have the byte length of their key (full-width / kanji / ASCII headword for a key written otherwise) in both lexicons, directed and as pieces; every case additionally with the word-info fields restricted (StatefulTokenizer::set_subset: POS_ID; POS_ID|NORMALIZED_FORM; +READING_FORM; POS_ID|SPLIT_A|SPLIT_B - none loads the surface): with plugins the analysis succeeds whenever it succeeds without, covers the text, boundaries are a subset");
     let mut vs = variants(&args.work);
     // user-defined parts of speech introduced by OOV providers (both lexicons' katakana words are dictionary words there too)
-    let upos_dic = compile_system(&format!("{}{}{}", EXTRA_ROWS, attr_rows(46, 47, 55, 56), HEADWORD_ROWS));
+    let upos_dic = compile_system(&format!("{}{}{}{}", EXTRA_ROWS, attr_rows(46, 47, 55, 56), HEADWORD_ROWS, FAMILY_ROWS));
     vs.extend(user_pos_variants(&mut sink, &args.work, &upos_dic));
     if let Some(p) = &args.replay {
         let r: Value = serde_json::from_str(&std::fs::read_to_string(p).unwrap()).unwrap();
@@ -790,7 +814,7 @@ pub fn run(args: &Args) {
     for t in DIRECTED.iter() {
         for v in vs.iter().filter(|v| !v.input_plugin) {
             if v.name.ends_with("num+kat3") || v.name.ends_with("numraw+kat1") || v.name.ends_with("kat2") || v.name.ends_with("numraw")
-                || v.name.ends_with("kat3p1") || v.name.ends_with("num+kat4p2") || v.name.starts_with("upos-")
+                || v.name.ends_with("numdef") || v.name.ends_with("numdef+kat3") || v.name.ends_with("kat3p1") || v.name.ends_with("kat3v") || v.name.ends_with("num+kat2j") || v.name.ends_with("num+kat4p2") || v.name.starts_with("upos-")
             {
                 run_case(&mut sink, v, t, "text:directed", false);
             }
@@ -798,7 +822,7 @@ pub fn run(args: &Args) {
     }
     for t in DIRECTED_HEADWORD.iter() {
         for v in vs.iter().filter(|v| !v.input_plugin) {
-            if v.name.ends_with("/num") || v.name.ends_with("numraw") || v.name.ends_with("num+kat3") {
+            if v.name.ends_with("/num") || v.name.ends_with("numraw") || v.name.ends_with("num+kat3") || v.name.ends_with("numdef") {
                 run_case(&mut sink, v, t, "text:directed", false);
             }
         }
